@@ -248,10 +248,18 @@ func Compare(fi *FuncInfo, exps []*refmodel.Expect) []Disc {
 
 // BuildModels computes the model expectations of every method of a case (keyed by FuncKey).
 func BuildModels(c *CaseResult) (map[string][]*refmodel.Expect, *SetupView, error) {
+	out, _, v, err := BuildModelsHidden(c)
+	return out, v, err
+}
+
+// BuildModelsHidden also returns the expectations for leaves the package cannot name but which get a
+// value through a whole-struct copy.
+func BuildModelsHidden(c *CaseResult) (map[string][]*refmodel.Expect, map[string][]*refmodel.Expect, *SetupView, error) {
 	v, err := LoadSetupView(c)
 	if err != nil {
-		return nil, nil, err
+		return nil, nil, nil, err
 	}
+	hidden := map[string][]*refmodel.Expect{}
 	out := map[string][]*refmodel.Expect{}
 	lookup := v.FuncLookup(c.S)
 	for _, it := range c.S.Converters() {
@@ -262,9 +270,10 @@ func BuildModels(c *CaseResult) (map[string][]*refmodel.Expect, *SetupView, erro
 			}
 			md := refmodel.New(v.Loaded.Pkg, scen.Effective(it, m), m, sig, lookup)
 			out[FuncKey(m)] = md.Run()
+			hidden[FuncKey(m)] = md.Hidden
 		}
 	}
-	return out, v, nil
+	return out, hidden, v, nil
 }
 
 // typeKind gives a coarse kind label of a go/types type for fingerprints.
